@@ -7,6 +7,7 @@ import (
 
 	"github.com/enfein/mieru/v3/pkg/appctl/appctlpb"
 	"github.com/enfein/mieru/v3/pkg/cipher"
+	"github.com/enfein/mieru/v3/pkg/common"
 	"github.com/enfein/mieru/v3/pkg/protocol/serveruser"
 	"github.com/enfein/mieru/v3/pkg/replay"
 	"github.com/enfein/mieru/v3/pkg/stderror"
@@ -20,6 +21,8 @@ import (
 type vOracleCipher struct{ user string }
 
 var vOracleLowEntropy bool
+var vOracleScript []byte // if set: the next metadata the oracle returns (then arbitrary again)
+var vOracleFirstMeta []byte // the first metadata the oracle handed out (harnesses may constrain it afterwards)
 
 func (b *vOracleCipher) Encrypt(dst, plaintext []byte) error                 { return nil }
 func (b *vOracleCipher) EncryptWithNonce(dst, nonce, plaintext []byte) error { return nil }
@@ -28,8 +31,16 @@ func (b *vOracleCipher) Decrypt(ciphertext []byte) ([]byte, error) {
 		return nil, vTimeoutErr{}
 	}
 	if len(ciphertext) == 48 {
+		if vOracleScript != nil {
+			m := vOracleScript
+			vOracleScript = nil
+			return m, nil
+		}
 		m := vNondetBytes("oracle.meta", 32)
 		vAssume(vOracleLowEntropy || (m[0] != 10 && m[0] != 11)) // low-entropy data types: separate harness (64-step bit loops)
+		if vOracleFirstMeta == nil {
+			vOracleFirstMeta = m
+		}
 		return m, nil
 	}
 	out := make([]byte, len(ciphertext)-16)
@@ -212,4 +223,39 @@ func vStubIsDuplicateFirst(c *replay.ReplayCache, data []byte, tag string) bool 
 		return true
 	}
 	return vNondetBool("replay.dup")
+}
+
+
+// ---- H1.4: a segment for a closed session does not take the underlay down ----
+//
+// A server TCP underlay carries several sessions.  Session 7 is closed but
+// still registered (it stays in the session map until the periodic clean-up).
+// The peer sends one more data segment for it, then the stream ends.  The
+// event loop must drop that segment and go on reading - it ends only because
+// the stream does (a NETWORK error from the next read), so the sibling sessions
+// on this connection are not torn down by the stray segment.
+func vH_C01_stray_segment_for_closed_session() {
+	conn := &vFakeConn{in: make([]byte, 48)}
+	u := &StreamUnderlay{baseUnderlay: *newBaseUnderlay(false, 1400, nil), conn: conn, sessionCleanTicker: time.NewTicker(sessionCleanInterval)}
+	u.recv = &vOracleCipher{user: "alice"}
+	s := vNewSession(7, false, common.StreamTransport)
+	s.forwardStateTo(sessionAttached)
+	s.forwardStateTo(sessionEstablished)
+	s.forwardStateTo(sessionClosed)
+	s.closeRequested.Store(true)
+	close(s.closedChan)
+	u.sessionMap.Store(uint32(7), s)
+	// a payload-less data segment for session 7: type, id and lengths concrete,
+	// timestamp / sequence / ack / window arbitrary
+	m := vNondetBytes("meta", 32)
+	m[0], m[1] = uint8(dataClientToServer), 0
+	m[6], m[7], m[8], m[9] = 0, 0, 0, 7
+	m[21], m[22], m[23], m[24] = 0, 0, 0, 0
+	vOracleScript = m
+	err := u.RunEventLoop(context.Background())
+	vAssert(err != nil, "the loop ends when the stream does")
+	et := stderror.GetErrorType(err)
+	vAssume(et != stderror.PROTOCOL_ERROR && et != stderror.CRYPTO_ERROR) // the segment itself was well-formed and timely
+	vAssert(et == stderror.NETWORK_ERROR, "a data segment for a closed session is dropped and the loop reads on: it ends with the stream (network error), not because of the stray segment")
+	vAssert(conn.writes == 0, "nothing is written for a segment of a known, closed session")
 }
